@@ -65,6 +65,12 @@ Theorem C09A_add_no_panic : forall s i a r,
 Proof. exact aadd_no_panic. Qed.
 Print Assumptions C09A_add_no_panic.
 
+Theorem C09A_init_update_no_panic : forall s,
+  (forall r, r <> APanic -> snd (astep s (AInit r)) <> PANIC) /\
+  (forall r, r <> APanic -> snd (astep s (AUpdate r)) <> PANIC).
+Proof. intro s. split; intros r Hr; [exact (ainit_no_panic s r Hr) | exact (aupdate_no_panic s r Hr)]. Qed.
+Print Assumptions C09A_init_update_no_panic.
+
 (* C01 for the action machine: over every operation sequence and every app the current transaction
    is signed by every participant over exactly the current state, or is the unsigned state adopted
    by SetProgressed; Init/Update/AddAction never change it *)
